@@ -318,6 +318,48 @@ def staleend_stream(ctx, count, repl="[$1|$2]"):
     return out
 
 
+def grammar_tree_stream(ctx, count, repl=""):
+    """pattern texts printed from random trees of the grammar of coq/Proofs/GroupGrammar.v (runs of
+    ordinary characters, quantified characters c? c* c+ and their reluctant forms, alternation,
+    capturing and non-capturing groups, empty branches, any nesting): the domain of the theorems
+    C01_group_grammar_end_to_end / C06_group_grammar_tokenize_end_to_end, on which model = specification
+    is proved; here the code is compared with both.  Own generator state."""
+    rng = random.Random(ctx.seed * 32452843 + 13)
+    ordinary = "abcAB-,: 1xé" + ASTRAL
+
+    def run(al):
+        return "".join(rng.choice(al) for _ in range(rng.choice([0, 1, 1, 2, 3])))
+
+    def branch(depth, al, xpath):
+        out = ""
+        for _ in range(rng.choice([0, 1, 1, 2, 3])):
+            k = rng.random()
+            if k < 0.4:
+                out += run(al)
+            elif k < 0.75:
+                q = rng.choice("?*+")
+                if xpath and rng.random() < 0.4:
+                    q += "?"
+                out += run(al) + rng.choice(al) + q
+            elif depth > 0:
+                cap = (not xpath) or rng.random() < 0.5
+                out += run(al) + ("(" if cap else "(?:") + alt(depth - 1, al, xpath) + ")"
+        return out + run(al)
+
+    def alt(depth, al, xpath):
+        return "|".join(branch(depth, al, xpath) for _ in range(rng.choice([1, 1, 2, 3])))
+
+    out = []
+    while len(out) < count:
+        d = rng.choice(["xpath", "xpath", "xsd"])
+        al = rng.choice(["ab", "abc", "aAb", ordinary])
+        pat = alt(rng.choice([0, 1, 2, 3]), al, d == "xpath")
+        fl = rng.choice(["", "", "i", "m", "s", "im"])
+        for inp in gen.inputs_for(rng, al, 4):
+            out.append((d, fl, pat, inp, repl))
+    return out
+
+
 # ================================================================ C01
 def slice_C01(ctx):
     rng = ctx.rng
@@ -334,6 +376,9 @@ def slice_C01(ctx):
                 for inp in inputs:
                     tuples.append(("xpath", fl, pat, inp, "", "exhaustive"))
                     n_exh += 1
+    # (a') the grammar of the end-to-end theorems
+    for d, fl, pat, inp, _ in grammar_tree_stream(ctx, ctx.n(6000, 60000)):
+        tuples.append((d, fl, pat, inp, "", "grammar"))
     # (b) seeded random structured patterns incl. back-references
     for d, fl, pat, inp, ast in random_stream(ctx, ctx.n(24000, 240000), shapes=0.3, per_pattern=5):
         tuples.append((d, fl, pat, inp, "", "random"))
@@ -362,7 +407,7 @@ def slice_C01(ctx):
                                    "is_match differs from membership of some substring in the pattern's language",
                                    s, same_as_model(code, model, c.cid)))
     return result(ctx, cases, dis, violations, nontrivial,
-                  f"(a) every pattern AST of size <= {maxsize} over 8 leaf kinds, 13 unary and 2 binary operators x every input of length <= 3 over {{a,b,LF}} x flags {flagsets} ({n_exh} cases); (b) seeded random structured patterns (size <= 9, classes, groups, alternation, greedy/reluctant quantifiers, anchors, back-references) x 4 inputs each x 8 flag subsets; non-trivial = distinct (flags,pattern,input) accepted by code and spec",
+                  f"(a) every pattern AST of size <= {maxsize} over 8 leaf kinds, 13 unary and 2 binary operators x every input of length <= 3 over {{a,b,LF}} x flags {flagsets} ({n_exh} cases); (a') pattern texts printed from random trees of the grammar of the end-to-end theorems (coq/Proofs/GroupGrammar.v: runs, quantified characters, alternation, nested groups; both dialects) x 4 inputs; (b) seeded random structured patterns (size <= 9, classes, groups, alternation, greedy/reluctant quantifiers, anchors, back-references) x 4 inputs each x 8 flag subsets; non-trivial = distinct (flags,pattern,input) accepted by code and spec",
                   {"distribution": dict(hist), "exhaustive": False})
 
 
@@ -975,6 +1020,8 @@ def slice_C08(ctx):
             for inp in ["x\nabc", "ab\n12", "z\nab", "bar\nfoo", "b\na\nc", "a\nbb\nc", "abc", "x\nab", "\nabb", "q\nac", ""]:
                 tuples.append(("xpath", fl, p_, inp, "<$0>"))
     tuples += bigfollow_stream(ctx, ctx.n(3000, 30000), "[$1]")
+    # the grammar of the end-to-end theorems (proved for the hook constructor: the shortcuts must not matter)
+    tuples += grammar_tree_stream(ctx, ctx.n(4000, 40000), "[$1]")
     # shapes that trigger each shortcut
     # (pattern text, a text it matches)
     heads = [("ab", "ab"), ("a", "a"), ("[ab]", "b"), ("\\d", "1"), ("^", ""), ("^a", "a"), (".", "b"), ("(a)", "a"),
